@@ -819,9 +819,11 @@ fn replay_case(c: &Sexp, rng: &mut Rng, stats: &mut Stats) -> String {
         "inst" => {
             let name = c.field("rule").unwrap()[0].atom();
             let a = parse_asg(c.field("assign").unwrap());
-            let opts = InstOpts { exh_bits: 0, samples_true: 0, samples_false: 0, eval_max_width: u32::MAX };
+            // with a (vals ..) field: exactly those operand tuples; without: fresh samples (used by the search
+            // that turns diverging side-condition cases into evaluated instances)
+            let opts = InstOpts { exh_bits: 10, samples_true: 48, samples_false: 8, eval_max_width: 4096 };
             match find(name) {
-                Some(r) => inst_case(&id, r, &a, Some(c.field("vals").unwrap_or(&[])), &opts, rng, stats),
+                Some(r) => inst_case(&id, r, &a, c.field("vals"), &opts, rng, stats),
                 None => format!("(case {id} (kind inst) (rule {}) (assign{}) (norule))", quote(name), asg_txt(&a)),
             }
         }
@@ -884,6 +886,28 @@ pub fn run(args: &Args) {
                 for a in extreme_assignments(r, &rv, &mut rng, args.get_u64("extreme", 40) as usize) {
                     let line = cond_case(&id("cx"), r, &a);
                     stats.bump("cond_extreme_result", &format!("{}:{}", r.name(), &line[line.rfind("(impl ").unwrap() + 6..line.len() - 2]));
+                    emit(line, &mut stats, &mut out);
+                }
+                // widths of every magnitude (log-uniform up to u32::MAX): the closure is only evaluated, nothing is lowered
+                for _ in 0..args.get_u64("random", 2000) {
+                    let mut a: Asg = vec![];
+                    for w in rv.widths.iter() {
+                        let bits = rng.range(1, 32);
+                        let v = (rng.next_u64() & ((1u64 << bits) - 1)).max(1) as WidthInt;
+                        a.push((w.clone(), v));
+                    }
+                    // related widths are more interesting than independent ones: copy / offset a few
+                    if a.len() >= 2 && rng.chance(1, 2) {
+                        let i = rng.below(a.len() as u64) as usize;
+                        let j = rng.below(a.len() as u64) as usize;
+                        let d = rng.below(5) as i64 - 2;
+                        a[i].1 = (a[j].1 as i64 + d).clamp(1, u32::MAX as i64) as WidthInt;
+                    }
+                    for s in rv.signs.iter() {
+                        a.push((s.clone(), rng.below(2) as WidthInt));
+                    }
+                    let line = cond_case(&id("cr"), r, &a);
+                    stats.bump("cond_random_result", &format!("{}:{}", r.name(), &line[line.rfind("(impl ").unwrap() + 6..line.len() - 2]));
                     emit(line, &mut stats, &mut out);
                 }
             }
